@@ -111,10 +111,75 @@ func Compile(a *refsem.Arch, p *seccomp.Policy, big bool) (insts []bpf.Instructi
 			insts = nil
 		}
 	}()
-	tok := Enter(func() any { return map[string]any{"scope": "non-terminating Assemble", "policy": ToJSON(a, p, big), "class": "hang"} })
+	tok := Enter(func() any {
+		return map[string]any{"scope": "non-terminating Assemble", "policy": ToJSON(a, p, big), "class": "hang"}
+	})
 	insts, err = cp.Assemble()
 	Leave(tok)
 	return
+}
+
+// CompileAfter first assembles the policy VALUE in an earlier shape (prior) and then, on the very same value, the final
+// policy: whatever the library keeps inside the value between calls must not influence the second result.
+func CompileAfter(a *refsem.Arch, prior, final *seccomp.Policy, big bool) (insts []bpf.Instruction, err error, panicked any) {
+	cp := *prior
+	seccomp.VerifSetArch(&cp, a.Info)
+	if big {
+		endianMu.Lock()
+		restore := seccomp.VerifSetByteOrder(binary.BigEndian)
+		defer func() { restore(); endianMu.Unlock() }()
+	} else {
+		endianMu.RLock()
+		defer endianMu.RUnlock()
+	}
+	defer func() {
+		if r := recover(); r != nil {
+			panicked = r
+			insts = nil
+		}
+	}()
+	tok := Enter(func() any {
+		return map[string]any{"scope": "non-terminating Assemble", "policy": ToJSON(a, final, big), "class": "hang"}
+	})
+	defer Leave(tok)
+	cp.Assemble()
+	cp.DefaultAction, cp.Syscalls = final.DefaultAction, final.Syscalls
+	insts, err = cp.Assemble()
+	return
+}
+
+// EarlierShape derives a valid earlier shape of a policy. Variant 0: another default action, the last group dropped (or,
+// with one group, its action changed). Variant 1: the same default action and number of groups, but every group has
+// another action and the first non-empty list lost its first entry (for caches keyed by the coarse shape of the policy).
+func EarlierShape(p *seccomp.Policy, variant int) *seccomp.Policy {
+	if variant%2 == 1 {
+		q := &seccomp.Policy{DefaultAction: p.DefaultAction, Syscalls: make([]seccomp.SyscallGroup, len(p.Syscalls))}
+		dropped := false
+		for i, g := range p.Syscalls {
+			g.Action ^= 0x00010000
+			if !dropped && len(g.Names) > 0 {
+				g.Names = g.Names[1:len(g.Names):len(g.Names)]
+				dropped = true
+			} else if !dropped && len(g.NamesWithCondtions) > 0 {
+				g.NamesWithCondtions = g.NamesWithCondtions[1:len(g.NamesWithCondtions):len(g.NamesWithCondtions)]
+				dropped = true
+			}
+			q.Syscalls[i] = g
+		}
+		return q
+	}
+	q := &seccomp.Policy{DefaultAction: seccomp.ActionLog}
+	if p.DefaultAction == seccomp.ActionLog {
+		q.DefaultAction = seccomp.ActionAllow
+	}
+	if len(p.Syscalls) > 1 {
+		q.Syscalls = p.Syscalls[: len(p.Syscalls)-1 : len(p.Syscalls)-1]
+	} else if len(p.Syscalls) == 1 {
+		g := p.Syscalls[0]
+		g.Action ^= 0x00010000
+		q.Syscalls = []seccomp.SyscallGroup{g}
+	}
+	return q
 }
 
 // Raw encodes the instructions with bpf.Assemble (what LoadFilter does).
@@ -144,13 +209,16 @@ type Outcome struct {
 }
 
 type Options struct {
-	Big          bool
-	ExtraArch    []uint32 // additional architecture words (C04)
-	ExtraNr      []uint32 // additional syscall numbers
-	Filler       uint32   // value of words nobody mentions
-	MaxEvents    uint64   // cap on the product (0 = 1<<24)
-	MaxIssues    int      // per policy
-	SkipDecision bool
+	Big           bool
+	ExtraArch     []uint32 // additional architecture words (C04)
+	ExtraNr       []uint32 // additional syscall numbers
+	Filler        uint32   // value of words nobody mentions
+	MaxEvents     uint64   // cap on the product (0 = 1<<24)
+	MaxIssues     int      // per policy
+	SkipDecision  bool
+	Staged        bool // assemble the policy value in an earlier shape first (see CompileAfter)
+	StagedVariant int
+	Prior         *seccomp.Policy // explicit earlier shape (implies Staged)
 }
 
 // AllowedReturns is the closed return set of C05.
@@ -178,7 +246,17 @@ func CheckPolicy(a *refsem.Arch, p *seccomp.Policy, o Options) *Outcome {
 	}
 	var why string
 	out.Verdict, why = refsem.Valid(a, p)
-	insts, err, pan := Compile(a, p, o.Big)
+	var insts []bpf.Instruction
+	var err error
+	var pan any
+	switch {
+	case o.Prior != nil:
+		insts, err, pan = CompileAfter(a, o.Prior, p, o.Big)
+	case o.Staged:
+		insts, err, pan = CompileAfter(a, EarlierShape(p, o.StagedVariant), p, o.Big)
+	default:
+		insts, err, pan = Compile(a, p, o.Big)
+	}
 	if pan != nil {
 		add(Issue{Class: ClsPanic, What: fmt.Sprintf("Assemble panicked: %v", pan)})
 		return out
